@@ -52,9 +52,9 @@ func (r *Rand) Intn(n int) int {
 	return int(r.U64() % uint64(n))
 }
 func (r *Rand) Range(lo, hi int) int { return lo + r.Intn(hi-lo+1) } // inclusive
-func (r *Rand) Bool() bool          { return r.U64()&1 == 1 }
-func (r *Rand) Chance(pct int) bool { return r.Intn(100) < pct }
-func Pick[T any](r *Rand, xs []T) T { return xs[r.Intn(len(xs))] }
+func (r *Rand) Bool() bool           { return r.U64()&1 == 1 }
+func (r *Rand) Chance(pct int) bool  { return r.Intn(100) < pct }
+func Pick[T any](r *Rand, xs []T) T  { return xs[r.Intn(len(xs))] }
 func (r *Rand) Perm(n int) []int {
 	p := make([]int, n)
 	for i := range p {
